@@ -309,9 +309,10 @@ def _scenario(ctx, cls, kind, expected, plans, n_chunks, query=False):
         if kind == 'iter':
             stops = [e for e in o.effects if e[0] == 'stop']
             fin = [e[1] for e in o.effects if e[0] == 'finish']
+            alive = set(n for n in plans if not plans[n].get('fault'))
             rep.check('R6.4', key + ':eof', len(stops) == 1 and
                       stops[0][1] == T('exc', 'StopIteration') and
-                      set(fin) >= set(plans),
+                      set(fin) >= alive,
                       '%s: at EOF StopIteration is re-raised after every '
                       'inspector was finished (finished: %s)' % (label, fin))
         closes = [e for e in o.effects if e[0] == 'source.close']
